@@ -61,9 +61,7 @@ package authgrants
 //@ func WriteIntentCommunication(w io.Writer, i Intent) (err error)
 //@   assume message writer (encoding: C18)
 //@   modifies opaque(w)
-//@ func (m *AgMessage) ReadFrom(r io.Reader) (n int64, err error)
-//@   assume message reader (decoding: C11 / C18): fills the message
-//@   modifies *m, opaque(r)
+// (AgMessage.ReadFrom's contract is in the C18 section below: it fills the message and moves the reader's cursor)
 // a reply is accepted only if it is a denial or a confirmation
 //@ func ReadConfOrDenial(r io.Reader) (m AgMessage, err error)
 //@   property C06
@@ -124,3 +122,79 @@ package authgrants
 //@   property C06
 //@   ensures callcount(authgrants.principalInstance.checkIntent) == 1 && err == resultof(authgrants.principalInstance.checkIntent, err) &&
 //@        argof(authgrants.principalInstance.checkIntent, c) == cert && !called(authgrants.WriteIntentDenied) && !called(authgrants.WriteIntentConfirmation)
+
+// ===========================================================================
+// C18: the intent codec - encoder and decoder are proved against ONE layout (byte-stream model of the prelude)
+// ===========================================================================
+// From the cursor p:  grant type (1), reserved (1), target port (2, big-endian), start and expiry time (8 + 8, Unix
+// seconds, big-endian), the target SNI as a certs.Name, the target user name as a one-byte-length string, the delegate
+// certificate (its own codec; L bytes), and - for a command grant - the command as a one-byte-length string.
+//@ macro intentFixed(s, p, i) = sbyte(s, p) == uint8(i.GrantType) && sbyte(s, p + 1) == i.Reserved && be16(sbyte(s, p + 2), sbyte(s, p + 3)) == i.TargetPort &&
+//@        be64at(s, p + 4) == uint64(unixOf(i.StartTime)) && be64at(s, p + 12) == uint64(unixOf(i.ExpTime)) && nameAt(s, p + 20, i.TargetSNI)
+//@ macro userAt(s, p, i) = sbyte(s, p + 23 + len(i.TargetSNI.Label)) == uint8(len(i.TargetUsername)) && srange(s, p + 24 + len(i.TargetSNI.Label), len(i.TargetUsername)) == bytes(i.TargetUsername)
+//@ macro certStart(p, i) = p + 24 + len(i.TargetSNI.Label) + len(i.TargetUsername)
+//@ macro cmdAt(s, q, i) = sbyte(s, q) == uint8(len(i.AssociatedData.CommandGrantData.Cmd)) && srange(s, q + 1, len(i.AssociatedData.CommandGrantData.Cmd)) == bytes(i.AssociatedData.CommandGrantData.Cmd)
+//@ func (d *CommandGrantData) WriteTo(w io.Writer) (n int64, err error)
+//@   inline
+//@ func (d *ShellGrantData) WriteTo(w io.Writer) (n int64, err error)
+//@   inline
+//@ func (d *CommandGrantData) ReadFrom(r io.Reader) (n int64, err error)
+//@   inline
+//@ func (d *ShellGrantData) ReadFrom(r io.Reader) (n int64, err error)
+//@   inline
+//@ func (d *LocalPFGrantData) ReadFrom(r io.Reader) (n int64, err error)
+//@   inline
+//@ func (d *RemotePFGrantData) ReadFrom(r io.Reader) (n int64, err error)
+//@   inline
+// (encoding a port-forwarding grant is unimplemented and panics: excluded by precondition; only command and shell intents are ever built)
+//@ func (i *Intent) WriteTo(w io.Writer) (n int64, err error)
+//@   property C18
+//@   requires i.GrantType != authgrants.LocalPF && i.GrantType != authgrants.RemotePF
+//@   modifies spos
+//@   let p = spos[ref(w)]
+//@   after certs.Certificate.WriteTo let wCertEnd = spos[ref(w)]
+//@   ensures err == nil ==> sbyte(ref(w), p) == uint8(i.GrantType) && sbyte(ref(w), p + 1) == i.Reserved
+//@   ensures err == nil ==> be16(sbyte(ref(w), p + 2), sbyte(ref(w), p + 3)) == i.TargetPort
+//@   ensures err == nil ==> be64at(ref(w), p + 4) == uint64(unixOf(i.StartTime)) && be64at(ref(w), p + 12) == uint64(unixOf(i.ExpTime))
+//@   ensures err == nil ==> nameAt(ref(w), p + 20, i.TargetSNI)
+//@   ensures err == nil ==> userAt(ref(w), p, i)
+//@   ensures err == nil ==> callcount(certs.Certificate.WriteTo) == 1 && argof(certs.Certificate.WriteTo, c) == &i.DelegateCert &&
+//@        wCertEnd - int(resultof(certs.Certificate.WriteTo, n)) == certStart(p, i)
+//@   ensures err == nil && i.GrantType == authgrants.Command ==> cmdAt(ref(w), wCertEnd, i) && spos == update(old(spos), ref(w), wCertEnd + 1 + len(i.AssociatedData.CommandGrantData.Cmd))
+//@   ensures err == nil && i.GrantType != authgrants.Command ==> spos == update(old(spos), ref(w), wCertEnd)
+//@ func (i *Intent) ReadFrom(r io.Reader) (n int64, err error)
+//@   property C18
+//@   modifies *i, spos
+//@   let p = spos[ref(r)]
+//@   after certs.Certificate.ReadFrom let rCertEnd = spos[ref(r)]
+//@   ensures err == nil ==> sbyte(ref(r), p) == uint8(i.GrantType) && sbyte(ref(r), p + 1) == i.Reserved
+//@   ensures err == nil ==> be16(sbyte(ref(r), p + 2), sbyte(ref(r), p + 3)) == i.TargetPort
+//@   ensures err == nil ==> be64at(ref(r), p + 4) == uint64(unixOf(i.StartTime)) && be64at(ref(r), p + 12) == uint64(unixOf(i.ExpTime))
+//@   ensures err == nil ==> nameAt(ref(r), p + 20, i.TargetSNI)
+//@   ensures err == nil ==> userAt(ref(r), p, i)
+//@   ensures err == nil ==> callcount(certs.Certificate.ReadFrom) == 1 && argof(certs.Certificate.ReadFrom, c) == &i.DelegateCert &&
+//@        rCertEnd - int(resultof(certs.Certificate.ReadFrom, n)) == certStart(p, i)
+//@   ensures err == nil && i.GrantType == authgrants.Command ==> cmdAt(ref(r), rCertEnd, i) && spos == update(old(spos), ref(r), rCertEnd + 1 + len(i.AssociatedData.CommandGrantData.Cmd))
+//@   ensures err == nil && i.GrantType == authgrants.Shell ==> spos == update(old(spos), ref(r), rCertEnd)
+
+// The message envelope: one type byte, then - for an intent request / communication - the intent, or - for a denial -
+// the reason as a one-byte-length string; a confirmation has no body.  Encoder and decoder against the same layout.
+//@ macro denialAt(s, p, m) = sbyte(s, p + 1) == uint8(len(m.Data.Denial)) && srange(s, p + 2, len(m.Data.Denial)) == bytes(m.Data.Denial)
+//@ macro carriesIntent(m) = m.MsgType == authgrants.IntentRequest || m.MsgType == authgrants.IntentCommunication
+//@ func (m *AgMessage) WriteTo(w io.Writer) (n int64, err error)
+//@   property C18
+//@   requires m.Data.Intent.GrantType != authgrants.LocalPF && m.Data.Intent.GrantType != authgrants.RemotePF
+//@   modifies spos
+//@   let p = spos[ref(w)]
+//@   ensures err == nil ==> sbyte(ref(w), p) == uint8(m.MsgType)
+//@   ensures err == nil && carriesIntent(m) ==> intentFixed(ref(w), p + 1, m.Data.Intent) && userAt(ref(w), p + 1, m.Data.Intent) && callcount(authgrants.Intent.WriteTo) == 1
+//@   ensures err == nil && m.MsgType == authgrants.IntentDenied ==> denialAt(ref(w), p, m) && spos == update(old(spos), ref(w), p + 2 + len(m.Data.Denial))
+//@   ensures err == nil && m.MsgType == authgrants.IntentConfirmation ==> spos == update(old(spos), ref(w), p + 1)
+//@ func (m *AgMessage) ReadFrom(r io.Reader) (n int64, err error)
+//@   property C18
+//@   modifies *m, spos
+//@   let p = spos[ref(r)]
+//@   ensures err == nil ==> sbyte(ref(r), p) == uint8(m.MsgType)
+//@   ensures err == nil && carriesIntent(m) ==> intentFixed(ref(r), p + 1, m.Data.Intent) && userAt(ref(r), p + 1, m.Data.Intent) && callcount(authgrants.Intent.ReadFrom) == 1
+//@   ensures err == nil && m.MsgType == authgrants.IntentDenied ==> denialAt(ref(r), p, m) && spos == update(old(spos), ref(r), p + 2 + len(m.Data.Denial))
+//@   ensures err == nil && m.MsgType == authgrants.IntentConfirmation ==> spos == update(old(spos), ref(r), p + 1)
